@@ -153,6 +153,13 @@ pub struct History {
 pub const REALMS: [&str; 4] = ["example.org", "realm two", "r", "a-much-longer-realm.example.com"];
 
 pub fn nonce_text(sel: u8, cookie: bool, algs_bit: bool, anon_bit: bool) -> String {
+    // a few server nonces look like a nonce cookie with a malformed feature field (base64 padding, short field)
+    match sel % 9 {
+        6 => return "obMatJos2gAA=padded-feature-field".to_string(),
+        7 => return "obMatJos2gA==padded-feature-field".to_string(),
+        8 => return "obMatJos2AA".to_string(),
+        _ => {}
+    }
     let tail = ["f//499k954d6OL34oL9FSTvy64sA", "nonce-2", "n3n3n3", "AAAA", "zz~zz", "another.nonce.value"][sel as usize % 6];
     if cookie {
         let b0: u8 = ((algs_bit as u8) << 7) | ((anon_bit as u8) << 6);
